@@ -309,7 +309,7 @@ private:
                 // If sigma * |A[k, k]| >= alpha * lambda^2, no need to interchange
                 if (sigma * abs_akk < alpha * lambda * lambda)
                 {
-                    if (abs_akk >= alpha * sigma)
+                    if (abs(diag_coeff(r)) >= alpha * sigma)
                     {
                         // Permutation on A
                         pivoting_1x1(k, r);
